@@ -56,6 +56,25 @@ def step (args : List String) : String :=
         let bl := senderBlocks q l e (l + 1) 0 0
         "ok" ++ String.join (bl.map fun (_, s, en) => s!" {divCeil (en - s) e}")
     | _ => "bad-op"
+  | [rqpc, b, _l, e, tl] =>
+    -- gzip-coded object of `_l` content bytes and `tl` transfer bytes (an input: the model has no deflate): admission,
+    -- Z and B' are about the transfer length
+    if rqpc = "rqc" ∨ rqpc = "rpc" then
+      match nats? [b, e, tl] with
+      | some [b, e, tl] =>
+        let oti : Flute.Admission.Oti :=
+          { fec := if rqpc = "rqc" then .raptorq else .raptor, inst := 0, maxSbl := b, esl := e, parity := 1,
+            scheme := some (if rqpc = "rqc" then .raptorq 0 1 4 else .raptor 0 1 4) }
+        match Flute.Admission.fileDescNew oti none tl with
+        | .error _ => "PANIC"
+        | .ok (.error _) => "ERR"
+        | .ok (.ok o) =>
+          match o.scheme with
+          | some (.raptorq z _ _) => s!"ok {reconstructB tl e z} {z}"
+          | some (.raptor z _ _) => s!"ok {reconstructB tl e z} {z}"
+          | _ => "bad-op"
+      | _ => "bad-op"
+    else "bad-op"
   | [rqp, b, l, e] =>
     if rqp = "rq" ∨ rqp = "rp" then
       match nats? [b, l, e] with
